@@ -86,10 +86,12 @@ impl BitmapEvent {
                         return Err(Error::RdpError(RdpError::new(RdpErrorKind::InvalidSize, "bitmap data shorter than width * height pixels")))
                     }
                     let mut result = vec![0 as u16; self.width as usize * self.height as usize];
-                    for i in 0..self.height {
-                        for j in 0..self.width {
-                            let src = (((self.height - i - 1) * self.width + j) * 2) as usize;
-                            result[(i * self.width + j) as usize] = (self.data[src + 1] as u16) << 8 | self.data[src] as u16;
+                    // pixel offsets are computed in usize: they do not fit u16 from 256 x 128 upwards
+                    let (width, height) = (self.width as usize, self.height as usize);
+                    for i in 0..height {
+                        for j in 0..width {
+                            let src = ((height - i - 1) * width + j) * 2;
+                            result[i * width + j] = (self.data[src + 1] as u16) << 8 | self.data[src] as u16;
                         }
                     }
                     result
